@@ -64,9 +64,9 @@ func digest(slots []int64) string {
 }
 
 type mapObs struct {
-	Cap    int64 `json:"cap"`
-	Begin  int64 `json:"begin"`
-	End    int64 `json:"end"`
+	Cap    int64  `json:"cap"`
+	Begin  int64  `json:"begin"`
+	End    int64  `json:"end"`
 	Digest string `json:"digest"`
 }
 
@@ -476,7 +476,8 @@ func genMapBig(r *rand.Rand, target int64) ([]op, []string) {
 
 // budgets in list cells (about 30 ns each inside vm_compute)
 const (
-	mapBudget      = 40_000_000
+	mapBudget      = 15_000_000
+	mapBudgetWide  = 60_000_000
 	mapBudgetReuse = 8_000_000 // histories of the other generators re-run on the buffer model
 	mapBudgetBig   = 8_000_000_000
 )
